@@ -1,9 +1,392 @@
 package props
 
-import "verif/internal/core"
+import (
+	"encoding/json"
+	"fmt"
+	"math/rand"
+	"strings"
+	"time"
 
-// C18 — stub, replaced by the real check.
+	"verif/internal/core"
+)
+
+type c18Backend struct {
+	ID       string   `json:"id"`
+	EndUser  string   `json:"end_user"`
+	Prefixes []string `json:"prefixes"`
+	Seen     string   `json:"seen"`
+}
+
+type c18Config struct {
+	I        int          `json:"i"`
+	Backends []c18Backend `json:"backends"`
+	Orders   [][]int      `json:"orders"`
+	HTTP     bool         `json:"http,omitempty"`
+}
+
+var (
+	c18Prefixes = []string{"/", "/a", "/a/", "/a/b", "/ab", "/b", ""}
+	c18EndUsers = []string{"u1@example.com", "u2@example.com", "allUsers"}
+	c18Seen     = []string{"fresh", "4m", "6m", "1h", "never"}
+	c18Users    = []string{"u1@example.com", "u2@example.com", "u3@example.com"}
+	c18Paths    = []string{"/", "/a", "/a/", "/a/b/c", "/ab", "/b", "/c", ""}
+)
+
+func c18Live(seen string) bool { return seen == "fresh" || seen == "4m" }
+
+// c18Match is the length of the longest prefix of b matching path, -1 if none.
+func c18Match(b *c18Backend, path string) int {
+	best := -1
+	for _, p := range b.Prefixes {
+		if strings.HasPrefix(path, p) && len(p) > best {
+			best = len(p)
+		}
+	}
+	return best
+}
+
+// c18Expect is the independent specification: the set of admissible backend
+// answers and whether 404 is admissible, for one (configuration, user, path).
+func c18Expect(cfg *c18Config, user, path string) (allowed map[string]bool, allow404 bool, class string) {
+	var cands []*c18Backend
+	src := "user"
+	for i := range cfg.Backends {
+		b := &cfg.Backends[i]
+		if b.EndUser == user && c18Match(b, path) >= 0 {
+			cands = append(cands, b)
+		}
+	}
+	if len(cands) == 0 {
+		src = "shared"
+		for i := range cfg.Backends {
+			b := &cfg.Backends[i]
+			if b.EndUser == "allUsers" && c18Match(b, path) >= 0 {
+				cands = append(cands, b)
+			}
+		}
+	}
+	allowed = map[string]bool{}
+	if len(cands) == 0 {
+		return allowed, true, fmt.Sprintf("n%d|none", len(cfg.Backends))
+	}
+	max := -1
+	for _, b := range cands {
+		if m := c18Match(b, path); m > max {
+			max = m
+		}
+	}
+	nL, nLive := 0, 0
+	for _, b := range cands {
+		if c18Match(b, path) == max {
+			nL++
+			if c18Live(b.Seen) {
+				nLive++
+				allowed[b.ID] = true
+			}
+		}
+	}
+	allow404 = nLive < nL
+	liveness := "all-live"
+	if nLive == 0 {
+		liveness = "none-live"
+	} else if nLive < nL {
+		liveness = "some-live"
+	}
+	sharedToo := false
+	if src == "user" {
+		for i := range cfg.Backends {
+			if cfg.Backends[i].EndUser == "allUsers" && c18Match(&cfg.Backends[i], path) > max {
+				sharedToo = true // a shared backend is more specific, yet must not be used
+			}
+		}
+	}
+	nl := nL
+	if nl > 2 {
+		nl = 2
+	}
+	class = fmt.Sprintf("n%d|%s|cands%d|len%d|tie%d|%s|sharedLonger:%v", len(cfg.Backends), src, min(len(cands), 3), max, nl, liveness, sharedToo)
+	return allowed, allow404, class
+}
+
+// c18Why names what is wrong with answer got.
+func c18Why(cfg *c18Config, user, path, got string) string {
+	if got == "!" {
+		return "404-despite-live-match"
+	}
+	var b *c18Backend
+	for i := range cfg.Backends {
+		if cfg.Backends[i].ID == got {
+			b = &cfg.Backends[i]
+		}
+	}
+	if b == nil {
+		return "wrong-backend:unknown-id"
+	}
+	if b.EndUser != user && b.EndUser != "allUsers" {
+		return "wrong-backend:other-users-backend"
+	}
+	m := c18Match(b, path)
+	if m < 0 {
+		return "wrong-backend:non-matching-backend"
+	}
+	userHas, max := false, -1
+	for i := range cfg.Backends {
+		o := &cfg.Backends[i]
+		if o.EndUser == user && c18Match(o, path) >= 0 {
+			userHas = true
+		}
+	}
+	if b.EndUser == "allUsers" && userHas {
+		return "wrong-backend:shared-despite-user-match"
+	}
+	for i := range cfg.Backends {
+		o := &cfg.Backends[i]
+		if o.EndUser == b.EndUser {
+			if mm := c18Match(o, path); mm > max {
+				max = mm
+			}
+		}
+	}
+	if m < max {
+		return "wrong-backend:shorter-prefix-chosen"
+	}
+	if !c18Live(b.Seen) {
+		return "wrong-backend:not-live-chosen"
+	}
+	return "wrong-backend:other"
+}
+
+func c18Perms(n int) [][]int {
+	var out [][]int
+	var rec func(cur []int, used int)
+	rec = func(cur []int, used int) {
+		if len(cur) == n {
+			out = append(out, append([]int(nil), cur...))
+			return
+		}
+		for i := 0; i < n; i++ {
+			if used&(1<<i) == 0 {
+				rec(append(cur, i), used|1<<i)
+			}
+		}
+	}
+	rec(nil, 0)
+	return out
+}
+
+func c18Orders(rng *rand.Rand, n, max int) [][]int {
+	all := c18Perms(n)
+	if len(all) <= max {
+		return all
+	}
+	// identity, full reversal, then random others
+	out := [][]int{all[0], all[len(all)-1]}
+	for _, i := range rng.Perm(len(all) - 2)[:max-2] {
+		out = append(out, all[i+1])
+	}
+	return out
+}
+
+func c18RandPrefixes(rng *rand.Rand) []string {
+	k := 1 + rng.Intn(3)
+	var out []string
+	for _, i := range rng.Perm(len(c18Prefixes))[:k] {
+		out = append(out, c18Prefixes[i])
+	}
+	if rng.Intn(8) == 0 {
+		out = append(out, out[0]) // duplicate prefix
+	}
+	return out
+}
+
+func c18Generate(r *core.Run) []c18Config {
+	rng := r.Rand("c18")
+	var cfgs []c18Config
+	add := func(bs []c18Backend, maxOrders int) {
+		for i := range bs {
+			bs[i].ID = fmt.Sprintf("bk%d", i)
+		}
+		// the IDs decide the key order inside the store; vary which backend gets which
+		if len(bs) > 1 && rng.Intn(2) == 0 {
+			for i, j := range rng.Perm(len(bs)) {
+				bs[i].ID = fmt.Sprintf("bk%d", j)
+			}
+		}
+		cfgs = append(cfgs, c18Config{I: len(cfgs), Backends: bs, Orders: c18Orders(rng, len(bs), maxOrders)})
+	}
+	quick := r.Quick()
+	// one backend, exhaustive: end user x single prefix x liveness
+	for _, eu := range c18EndUsers {
+		for _, p := range c18Prefixes {
+			for _, s := range c18Seen {
+				add([]c18Backend{{EndUser: eu, Prefixes: []string{p}, Seen: s}}, 1)
+			}
+		}
+	}
+	// two backends, single prefix each: exhaustive over end users x prefixes, liveness exhaustive in thorough
+	seen2 := []string{"fresh", "6m"}
+	if !quick {
+		seen2 = c18Seen
+	}
+	for _, eu1 := range c18EndUsers {
+		for _, p1 := range c18Prefixes {
+			for _, eu2 := range c18EndUsers {
+				for _, p2 := range c18Prefixes {
+					for _, s1 := range seen2 {
+						for _, s2 := range seen2 {
+							if quick && rng.Intn(3) != 0 {
+								continue
+							}
+							add([]c18Backend{{EndUser: eu1, Prefixes: []string{p1}, Seen: s1}, {EndUser: eu2, Prefixes: []string{p2}, Seen: s2}}, 2)
+						}
+					}
+				}
+			}
+		}
+	}
+	// random larger configurations: 2-4 backends, prefix lists of 1-3 (+duplicates)
+	nRand := r.Pick(900, 10000)
+	for k := 0; k < nRand; k++ {
+		n := []int{2, 2, 3, 3, 3, 3, 4, 4}[rng.Intn(8)]
+		if quick {
+			n = 2 + rng.Intn(3)
+		}
+		bs := make([]c18Backend, n)
+		for i := range bs {
+			bs[i] = c18Backend{EndUser: c18EndUsers[rng.Intn(3)], Prefixes: c18RandPrefixes(rng), Seen: c18Seen[rng.Intn(5)]}
+			if rng.Intn(3) == 0 {
+				bs[i].Seen = "fresh" // keep enough live backends for ties among live ones
+			}
+		}
+		add(bs, r.Pick(6, 24))
+	}
+	// the sample that also goes through the client HTTP handler
+	nHTTP := r.Pick(12, 150)
+	for _, i := range rng.Perm(len(cfgs))[:nHTTP] {
+		cfgs[i].HTTP = true
+	}
+	return cfgs
+}
+
+// C18 — routing to the most specific live backend.
 func C18(r *core.Run) {
-	r.Broken("check not implemented yet")
-	r.Finish(1)
+	r.SetRule("bounded-exhaustive comparison of LookupBackend (real caching+persistent store over a fake datastore/memcache) with an independent longest-prefix specification: 1-4 backends, prefix lists (1-3, duplicates) over {/, /a, /a/, /a/b, /ab, /b, \"\"}, endUser in {u1,u2,allUsers}, last seen in {fresh,4m,6m,1h,never}, users {u1,u2,u3} x 8 paths, every/many insertion orders, each lookup repeated; sample through the client HTTP handler; class = (#backends, candidate source user/shared/none, #candidates, longest match length, tie size, liveness of the longest class, more specific shared backend present)")
+	r.Assume("ties and a non-live member of the longest-prefix class admit 404 or any live member; liveness margins are >= 60 s from the 5-minute boundary; 'never seen' is the state right after registration; last-seen ages are produced by ageing the time-valued properties written when the backend's pending list is read")
+	bin := r.MustBuild(e3Build(r))
+	cfgs := c18Generate(r)
+	spec := map[string]interface{}{"mode": "c18", "workers": 16, "users": c18Users, "paths": c18Paths, "reps": 2, "configs": cfgs}
+	res := e3Run(r, bin, "c18", spec, time.Duration(r.Pick(240, 1500))*time.Second)
+	seenCfg := 0
+	orders, lookups, httpCases, routed := 0, 0, 0, 0
+	for _, ln := range res.Lines {
+		var rec struct {
+			Cfg        int                      `json:"cfg"`
+			SetupErr   string                   `json:"setup_err"`
+			Res        [][]string               `json:"res"`
+			Evals      int                      `json:"evals"`
+			OrderDiffs []map[string]interface{} `json:"order_diffs"`
+			RepDiffs   []map[string]interface{} `json:"rep_diffs"`
+			HTTP       []struct {
+				U, P     int
+				Status   int
+				ListedIn []string `json:"listed_in"`
+				Hung     bool
+				SetupErr string `json:"setup_err"`
+			} `json:"http"`
+		}
+		if err := json.Unmarshal(ln, &rec); err != nil || rec.Cfg < 0 || rec.Cfg >= len(cfgs) {
+			r.Broken("unreadable C18 result line: " + core.Trunc(string(ln), 200))
+			continue
+		}
+		cfg := &cfgs[rec.Cfg]
+		if rec.SetupErr != "" || rec.Res == nil {
+			r.Broken(fmt.Sprintf("C18 configuration %d could not be set up: %s", rec.Cfg, rec.SetupErr))
+			continue
+		}
+		seenCfg++
+		orders += len(cfg.Orders)
+		lookups += rec.Evals
+		for ui, u := range c18Users {
+			for pi, p := range c18Paths {
+				got := rec.Res[ui][pi]
+				allowed, allow404, class := c18Expect(cfg, u, p)
+				r.Case(class)
+				ok := (got == "!" && allow404) || allowed[got]
+				if !ok {
+					why := c18Why(cfg, u, p, got)
+					r.Violate("C18:"+why, fmt.Sprintf("user %s path %q: LookupBackend answered %q; admissible: %v, 404 admissible: %v", u, p, got, keysOf(allowed), allow404),
+						map[string]interface{}{"config": cfg, "user": u, "path": p}, map[string]interface{}{"got": got})
+				}
+				if rec.Cfg%997 == 0 && len(allowed) > 0 && ui == 0 {
+					r.Sample(map[string]interface{}{"config": cfg.Backends, "user": u, "path": p, "answer": got, "admissible": keysOf(allowed), "404_admissible": allow404})
+				}
+			}
+		}
+		for _, d := range rec.OrderDiffs {
+			r.Violate("C18:order-dependent", fmt.Sprintf("the answer changes with the order in which the same backends were registered: %v", d), map[string]interface{}{"config": cfg}, d)
+		}
+		for _, d := range rec.RepDiffs {
+			r.Violate("C18:unstable-on-repetition", fmt.Sprintf("the same lookup answered differently when repeated: %v", d), map[string]interface{}{"config": cfg}, d)
+		}
+		for _, h := range rec.HTTP {
+			if h.SetupErr != "" {
+				r.Broken("C18 HTTP sample: " + h.SetupErr)
+				continue
+			}
+			u, p := c18Users[h.U], c18Paths[h.P]
+			allowed, allow404, class := c18Expect(cfg, u, p)
+			r.Case("http|" + class)
+			httpCases++
+			cs := map[string]interface{}{"config": cfg, "user": u, "path": p, "via": "client handler"}
+			switch {
+			case h.Hung:
+				r.Violate("C18:http-handler-hangs", "client handler did not return", cs, h)
+			case len(h.ListedIn) == 0:
+				if h.Status != 404 {
+					r.Violate("C18:http-unrouted-not-404", fmt.Sprintf("user %s path %q: request was queued for no backend but the client got %d, not 404", u, p, h.Status), cs, h)
+				} else if !allow404 {
+					r.Violate("C18:http-"+c18Why(cfg, u, p, "!"), fmt.Sprintf("user %s path %q: client got 404; admissible backends: %v", u, p, keysOf(allowed)), cs, h)
+				}
+			default:
+				routed++
+				if len(h.ListedIn) > 1 {
+					r.Violate("C18:http-queued-for-several-backends", fmt.Sprintf("user %s path %q: request queued for %v", u, p, h.ListedIn), cs, h)
+				}
+				if h.Status == 404 {
+					r.Violate("C18:http-404-but-queued", fmt.Sprintf("user %s path %q: client got 404 although the request was queued for %v", u, p, h.ListedIn), cs, h)
+				}
+				for _, b := range h.ListedIn {
+					if !allowed[b] {
+						r.Violate("C18:http-"+c18Why(cfg, u, p, b), fmt.Sprintf("user %s path %q: request queued for %q; admissible: %v, 404 admissible: %v", u, p, b, keysOf(allowed), allow404), cs, h)
+					}
+				}
+			}
+		}
+	}
+	if seenCfg != len(cfgs) && res.SawEnd {
+		r.Broken(fmt.Sprintf("C18: %d of %d configurations reported", seenCfg, len(cfgs)))
+	}
+	r.Set("configurations", seenCfg)
+	r.Set("insertion_orders_built", orders)
+	r.Set("lookups_executed", lookups)
+	r.Set("http_handler_cases", httpCases)
+	r.Set("http_handler_cases_routed", routed)
+	e3Finish(r, res, r.Pick(20000, 300000))
+}
+
+func keysOf(m map[string]bool) []string {
+	out := []string{}
+	for k := range m {
+		out = append(out, k)
+	}
+	sortStrings(out)
+	return out
+}
+
+func sortStrings(s []string) {
+	for i := 1; i < len(s); i++ {
+		for j := i; j > 0 && s[j] < s[j-1]; j-- {
+			s[j], s[j-1] = s[j-1], s[j]
+		}
+	}
 }
